@@ -718,7 +718,9 @@ class Generator:
             sh = hint
             if not sh or 0 in sh:
                 return "fill", {"v": 1}
-            m = r.choice(["flip", "flip", "fill"] + (["swapcols"] if len(sh) == 2 and sh[1] >= 2 else []))
+            big = len(sh) == 2 and sh[0] >= 5 and sh[0] == sh[1]
+            # (zeroing a 5/6-qubit R or S makes the layer search enumerate 2^20..2^24 combinations: seconds and GBs)
+            m = r.choice(["flip", "flip"] + ([] if big else ["fill"]) + (["swapcols"] if len(sh) == 2 and sh[1] >= 2 else []))
             if m == "flip":
                 return m, {"idx": [r.randrange(s) for s in sh]}
             if m == "fill":
